@@ -98,6 +98,53 @@ Section Embedding.
 End Embedding.
 
 (* ------------------------------------------------------------------ *)
+(* config/image_embedder.py: the public ImageEmbedder base class.
+     def forward_retrieve(self, path_to_images):
+         for path in path_to_images: image = Image.open(path); images.append(image.copy()); image.close()
+         return [image.convert('RGB') for image in images]
+     def __call__(self, path_to_images): return self.forward_embed(self.forward_retrieve(path_to_images))
+   Image.open raises (OSError family) for a path that cannot be opened as an image and nothing
+   catches it: one image per path, in order, or the whole call raises. *)
+Section ImageRetrieval.
+  Context {Img V : Type}.
+  Variable open_image : string -> option Img.        (* Image.open(p).copy().convert('RGB'); None = raises *)
+  Variable forward_embed : list Img -> list V.       (* the user's part *)
+
+  Definition forward_retrieve (paths : list string) : option (list Img) := mapM open_image paths.
+
+  Definition image_call (paths : list string) : option (list V) :=
+    imgs <- forward_retrieve paths ;; Some (forward_embed imgs).
+End ImageRetrieval.
+
+(* EmbeddingTensorMapper.forward with a callable that may raise: the loop stops at the first call that
+   raises and the exception propagates *)
+Section RaisingEmbedder.
+  Context {V : Type}.
+  Variable f : list string -> option (list V).
+
+  (* the calls actually made: up to and including the first one that raises *)
+  Fixpoint calls_until_raise (args : list (list string)) : list (list string) :=
+    match args with
+    | [] => []
+    | a :: r => match f a with Some _ => a :: calls_until_raise r | None => [a] end
+    end.
+
+  Definition emb_calls_raising (batch_size : option nat) (cells : list cell) : list (list string) :=
+    calls_until_raise (arg_lists batch_size cells).
+
+  Definition emb_forward_raising (batch_size : option nat) (cells : list cell) : option (nat * list V) :=
+    outs <- mapM f (arg_lists batch_size cells) ;;
+    values <- match batch_size with
+              | None => hd_error outs
+              | Some _ => torch_cat0 outs
+              end ;;
+    match values with
+    | [] => None
+    | _ => Some (List.length cells, values)
+    end.
+End RaisingEmbedder.
+
+(* ------------------------------------------------------------------ *)
 Section Tokenizer.
   Context {K T : Type}.                 (* mapping key; a 1-D token tensor *)
   Variable key_eqb : K -> K -> bool.
@@ -232,6 +279,24 @@ Definition c16_emb_col (cfgs : list (string * (@cfg emb_table))) (col : string) 
   let f := table_fun (fst c) [[(-999)%Z]] in
   let cells := series_tolist d raw in
   Some (emb_calls f (snd c) cells, emb_forward f (snd c) cells).
+
+(* one image column served by a subclass that relies on the default retrieval: `files` maps a path to
+   the id its pixels encode (None = cannot be opened); forward_embed maps image id k to the row
+   [((k+1)*4 + t) * scale | t < w] *)
+Fixpoint file_lookup (files : list (string * option nat)) (p : string) : option nat :=
+  match files with
+  | [] => None
+  | (q, r) :: rest => if String.eqb p q then r else file_lookup rest p
+  end.
+
+Definition img_row (w : nat) (scale : Z) (k : nat) : vec :=
+  map (fun t => (Z.of_nat ((k + 1) * 4 + t) * scale)%Z) (seq 0 w).
+
+Definition c16_img_col (files : list (string * option nat)) (w : nat) (scale : Z) (bs : option nat)
+  (d : pd_dtype) (raw : list cell) : option (list (list string) * option (nat * list vec)) :=
+  let f := image_call (file_lookup files) (map (img_row w scale)) in
+  let cells := series_tolist d raw in
+  Some (emb_calls_raising f bs cells, emb_forward_raising f bs cells).
 
 Definition c16_emb_obs_eqb (a b : option (list (list string) * option (nat * list vec))) : bool :=
   opt_eqb (fun x y =>
